@@ -1,5 +1,5 @@
 """C04 regenerate resamples exactly the selection and returns the MH weight (DESIGN §4-C04)."""
-from . import gfi
+from . import gfi, lints
 
 EXPLANATION = ("ALG/ROLE/KIND/DEP rules over every regenerate path: selected leaf → fresh simulate with weight 0 and old value as "
                "discard; unselected → rescoring without any sampler call; handler forwards the remainder selection; definedness lints.")
@@ -20,5 +20,12 @@ def selection_threading(ctx):
     c16.selection_algebra(ctx)
 
 
-RULES = [gfi.dist_regenerate, combs, selection_threading]
+
+def trc(ctx):
+    lints.trc_lint(ctx, ["genjax.core.Distribution.regenerate", "genjax.core.Fn.regenerate", "genjax.core.Vmap.regenerate", "genjax.core.Scan.regenerate",
+                         "genjax.core.Cond.regenerate", "genjax.core.Regenerate"])
+    lints.kind_lint(ctx, ["genjax.core"])
+
+
+RULES = [trc, gfi.dist_regenerate, combs, selection_threading]
 FLOOR = 8
